@@ -7,7 +7,7 @@
    result, make_amorphous (Voronoi + SAT colouring + RNG: shell) beyond the ansatz table. *)
 From Coq Require Import List ZArith Bool Arith.
 From Koala Require Import Model.AStar Model.FluxSolver Gen.AnsatzGen
-     Proofs.AStarFacts Proofs.ChainFlipFacts Proofs.FluxSolverFacts Proofs.AnsatzFacts.
+     Proofs.AStarFacts Proofs.ChainFlipFacts Proofs.FluxSolverFacts Proofs.AnsatzFacts Proofs.GreedyPairingFacts.
 Import ListNotations.
 
 (* ---- clause "any target, any guess ... bonds in {-1,+1} whose fluxes equal the target on every plaquette when the
@@ -112,3 +112,92 @@ Example C06_solver_nonvacuous :
   fs_solve (fs_fluxes_ujk P) ep fs_pair_consec path [1; -1]%Z [1; 1; 1; 1; 1]%Z = FS_Ok [1; 1; -1; 1; 1]%Z /\
   fs_solve (fs_fluxes_ujk P) ep fs_pair_consec path [1; 1]%Z [1; 1; 1; 1; 1]%Z = FS_Ok [1; 1; 1; 1; 1]%Z.
 Proof. exact fs_contract_example. Qed.
+
+(* ==== the pairing hypothesis discharged: koala's OWN greedy pairing (_greedy_plaquette_pairing, flux_finder.py:141-154, modelled
+   as coded: odd array loses its last entry, set(), while-loop of  cur = pop(); closest = min(...); remove(closest)).
+   The two implementation-defined choices are oracles constrained ONLY by what Python guarantees of them:
+   set.pop() returns a member of the non-empty set, min(...) over to_pair returns (the second component of) a member.
+   This supersedes the header remark about the greedy pairing: what is left to S/K for the pairing is only that the Python
+   function IS this model (harness/c06.py check_greedy: the model replaying the implementation's pop/min choices reproduces
+   its pairs exactly, on every solver call). ==== *)
+
+(* ---- for every such oracle pair and every duplicate-free defect list the run ends normally (min() is never called on an
+   empty sequence; fuel = size of the set suffices) ... *)
+Theorem C06_greedy_pairing_no_error :
+  forall (pick : list nat -> nat) (nearest : nat -> list nat -> nat),
+    (forall l, l <> [] -> In (pick l) l) ->
+    (forall c l, l <> [] -> In (nearest c l) l) ->
+    forall defects, NoDup defects ->
+      fs_greedy_run pick nearest defects = FG_Pairs (greedy_pairing pick nearest defects).
+Proof. exact greedy_pairing_no_error. Qed.
+Print Assumptions C06_greedy_pairing_no_error.
+
+(* ---- ... and its pairs are a perfect matching of the defects minus the last one when odd: the pairing contract *)
+Theorem C06_greedy_pairing_ok :
+  forall (pick : list nat -> nat) (nearest : nat -> list nat -> nat),
+    (forall l, l <> [] -> In (pick l) l) ->
+    (forall c l, l <> [] -> In (nearest c l) l) ->
+    forall defects, NoDup defects ->
+      fs_pairing_ok defects (greedy_pairing pick nearest defects) = true.
+Proof. exact greedy_pairing_ok. Qed.
+Print Assumptions C06_greedy_pairing_ok.
+
+(* ---- clause "any target, any guess ... never raises" with NO hypothesis left about the pairing: the solver contract of
+   C06_solver_contract with  pairing := greedy_pairing pick nearest,  for all admissible oracles *)
+Theorem C06_solver_contract_greedy :
+  forall (P : list fs_plaq) (ep : list (option nat * option nat))
+         (pick : list nat -> nat) (nearest : nat -> list nat -> nat)
+         (path : nat -> nat -> option (list nat * list nat))
+         (target guess : list Z),
+    fs_wf P ep = true ->
+    (forall l, l <> [] -> In (pick l) l) ->
+    (forall c l, l <> [] -> In (nearest c l) l) ->
+    (forall a b, (a < length P)%nat -> (b < length P)%nat -> a <> b -> fs_path_ok ep a b (path a b) = true) ->
+    length target = length P -> fs_pm1 target = true ->
+    length guess = length ep -> fs_pm1 guess = true ->
+    exists u, fs_solve (fs_fluxes_ujk P) ep (greedy_pairing pick nearest) path target guess = FS_Ok u
+      /\ length u = length ep /\ fs_pm1 u = true
+      /\ (Nat.even (ndiff (fs_fluxes_ujk P guess) target) = true -> fs_fluxes_ujk P u = target)
+      /\ (Nat.even (ndiff (fs_fluxes_ujk P guess) target) = false -> ndiff (fs_fluxes_ujk P u) target = 1%nat).
+Proof. exact fs_solver_contract_greedy_ujk. Qed.
+Print Assumptions C06_solver_contract_greedy.
+
+(* ---- the same for the deprecated pair find_flux_sector / fluxes_from_bonds *)
+Theorem C06_solver_deprecated_contract_greedy :
+  forall (P : list fs_plaq) (ep : list (option nat * option nat))
+         (pick : list nat -> nat) (nearest : nat -> list nat -> nat)
+         (path : nat -> nat -> option (list nat * list nat))
+         (target guess : list Z),
+    fs_wf P ep = true ->
+    (forall l, l <> [] -> In (pick l) l) ->
+    (forall c l, l <> [] -> In (nearest c l) l) ->
+    (forall a b, (a < length P)%nat -> (b < length P)%nat -> a <> b -> fs_path_ok ep a b (path a b) = true) ->
+    length target = length P -> fs_pm1 target = true ->
+    length guess = length ep -> fs_pm1 guess = true ->
+    exists u, fs_solve (fs_fluxes_bonds P) ep (greedy_pairing pick nearest) path target guess = FS_Ok u
+      /\ length u = length ep /\ fs_pm1 u = true
+      /\ (Nat.even (ndiff (fs_fluxes_bonds P guess) target) = true -> fs_fluxes_bonds P u = target)
+      /\ (Nat.even (ndiff (fs_fluxes_bonds P guess) target) = false -> ndiff (fs_fluxes_bonds P u) target = 1%nat).
+Proof. exact fs_solver_contract_greedy_bonds. Qed.
+Print Assumptions C06_solver_deprecated_contract_greedy.
+
+(* ---- the oracles used by the correspondence run (replaying the pairs captured from the implementation) are admissible
+   whatever was captured, so every replayed run is an instance of C06_greedy_pairing_ok *)
+Theorem C06_replay_oracles_admissible :
+  forall caps, (forall l, l <> [] -> In (fs_replay_pick caps l) l)
+            /\ (forall c l, l <> [] -> In (fs_replay_nearest caps c l) l).
+Proof. exact fs_replay_oracles_mem. Qed.
+Print Assumptions C06_replay_oracles_admissible.
+
+(* ---- non-vacuity: admissible oracles exist; five defects (odd: the last one, 4, is dropped); replaying 9->7 then 3->1 the
+   model returns exactly those pairs; other oracles (pop the last, take the head) give another matching of the same set *)
+Example C06_greedy_nonvacuous :
+  let caps := [(9, 7); (3, 1)]%nat in
+  let pick := fs_replay_pick caps in
+  let nearest := fs_replay_nearest caps in
+  (forall l, l <> [] -> In (pick l) l) /\ (forall c l, l <> [] -> In (nearest c l) l) /\
+  NoDup [3; 7; 1; 9; 4]%nat /\
+  fs_greedy_run pick nearest [3; 7; 1; 9; 4]%nat = FG_Pairs caps /\
+  greedy_pairing pick nearest [3; 7; 1; 9; 4]%nat = caps /\
+  greedy_pairing (fun l => last l 0%nat) (fun _ l => hd 0%nat l) [3; 7; 1; 9; 4]%nat = [(9, 3); (1, 7)]%nat.
+Proof. exact greedy_example. Qed.
